@@ -143,6 +143,16 @@ structure AutoImpl where
   src    : String
   deriving DecidableEq, Repr, Inhabited
 
+/-- a hand-written `unsafe impl Send/Sync for ty`: its bounds, and the type parameters of `ty` that occur in a field of
+    the struct outside `PhantomData` (a value of that parameter type, or a pointer to one, is stored) -/
+structure HandImpl where
+  tr     : Auto
+  ty     : String
+  bounds : List (String × Auto)
+  stored : List String
+  src    : String
+  deriving DecidableEq, Repr, Inhabited
+
 structure Table where
   sigs            : List Sig
   scopeImpls      : List ScopeImpl
@@ -152,6 +162,7 @@ structure Table where
   structs         : List StructDef
   autoImpls       : List AutoImpl
   dropImpls       : List (String × Bool)
+  handImpls       : List HandImpl := []
   deriving Repr, Inhabited
 
 def Table.lookup (t : Table) (owner name : String) : Option Sig :=
